@@ -332,8 +332,11 @@ class PiecewiseConstantBirthDeath(Distribution):
         y = times[..., -1:] - tip_heights
 
         if serially_sampled:
+            # a tip exactly on an epoch boundary belongs to the epoch that ends there
+            # (as in the count of lineages crossing the boundary below), so that
+            # rho.gather picks the sampling probability of that boundary
             indices_y = torch.clamp(
-                torch.searchsorted(times, y, right=True) - 1, max=m - 1
+                torch.searchsorted(times, y, right=False) - 1, min=0
             )
             # true if the node of the given index occurs at the time of a
             # rho-sampling event
